@@ -507,7 +507,7 @@ func TestEncodingAPI(t *testing.T) {
 	ctx := context.Background()
 	tmp := t.TempDir()
 	n := 0
-	r.Check(t, r.Scale(640, 16000), 1, func(t *rapid.T) {
+	r.Check(t, r.Scale(480, 12000), 1, func(t *rapid.T) {
 		n++
 		src, _ := genSrc(t, r.Thorough())
 		c := &EncCase{Kind: "enc-api", Src: src}
@@ -525,6 +525,15 @@ func TestEncodingAPI(t *testing.T) {
 				c.NonTarget = append(c.NonTarget, m.Dir)
 			}
 		}
+		if c.ExcludeImports && reexportsTarget(src, c.NonTarget) {
+			// An image WITHOUT its imports can only be linked again (resolver for custom options, both the
+			// bootstrap pass and NewImageForProto's reparse) when the omitted files are not needed to link
+			// the remaining ones. protogen does not keep the module graph acyclic, so a dependency-only
+			// module may publicly re-export a file of a target module, through which a target file then
+			// reaches its type: impossible for real dependency modules (module cycles). Excluded.
+			r.Excluded("exclude-imports:dependency-module-publicly-reexports-target-file")
+			c.ExcludeImports = false
+		}
 		if c.Format == "binpb" && !c.AsFDS && rapid.IntRange(0, 1).Draw(t, "unknown") == 0 {
 			c.Unknown = genUnknown(t, len(src.allPaths()))
 		}
@@ -538,6 +547,30 @@ func TestEncodingAPI(t *testing.T) {
 		defer os.RemoveAll(dir)
 		runEncAPI(ctx, t, r, c, dir)
 	})
+}
+
+// reexportsTarget reports whether a file of a dependency-only module publicly imports a file of a target module.
+func reexportsTarget(src Src, nonTarget []string) bool {
+	non := map[string]bool{}
+	for _, d := range nonTarget {
+		non[d] = true
+	}
+	for _, m := range src.Mods {
+		if !non[m.Dir] {
+			continue
+		}
+		for _, txt := range src.Files[m.Dir] {
+			for _, line := range strings.Split(txt, "\n") {
+				if strings.HasPrefix(line, "import public \"") {
+					p := strings.TrimSuffix(strings.TrimPrefix(line, "import public \""), "\";")
+					if owner := src.moduleOf(p); owner != "" && !non[owner] {
+						return true
+					}
+				}
+			}
+		}
+	}
+	return false
 }
 
 // ---------------------------------------------------------------------------------------------
@@ -659,7 +692,7 @@ func firstLines(s string, n int) string {
 func TestEncodingCLI(t *testing.T) {
 	r := evid.R()
 	ctx := context.Background()
-	r.Check(t, r.Scale(72, 2000), 2, func(t *rapid.T) {
+	r.Check(t, r.Scale(72, 1600), 2, func(t *rapid.T) {
 		src, _ := genSrc(t, false)
 		c := &EncCase{Kind: "enc-cli", Src: src}
 		genEncCommon(t, c)
